@@ -7,7 +7,7 @@ LEVEL = "proof"
 THEOREMS = ['C02_total', 'C02_simplex_wf', 'C02_simplex_wf_ecm', 'C02_base_rate_between', 'C02_base_rate_between_unconditional', 'C02_base_rate_shared', 'C02_base_rate_sum', 'C02_base_rate_sum_bound', 'C02_wf', 'C02_wf_ecm', 'C02_fuse_os', 'C02_fuse_ss',
             'C02_ecm_masses_nonneg', 'C02_ecm_masses_nonneg_gen', 'C02_wf_ecm_unconditional']
 EXTRA_MODULES = [("SLV.Props.Guards", "C02_")]
-RULE = ("fuse / fuse_os / fuse_ss for the 4 operators: guard lattice (vacuous, dogmatic, tolerance-edge vacuous u=1-k*eps/2, "
+RULE = ("fuse / fuse_os / fuse_ss for the 4 operators (clauses: simplex well-formed, base rate sums to 1, every entry between the operands' entries, a shared base-rate object returned unchanged, and an entry on which the operands agree exactly BY VALUE returned exactly -- equal_entries_unchanged, with a stream of equal-valued non-dyadic base rates held in separate vectors): guard lattice (vacuous, dogmatic, tolerance-edge vacuous u=1-k*eps/2, "
         "tolerance-edge dogmatic, interior; base rates different / equal / within a few ulps / one shared object), dyadic grids "
         "(exhaustive den 4 for n=2,3 in thorough; random up to 1/64), uncertainty sweeps 1e-300..1e-3 and 1-1e-3..1-2^-52, "
         "arbitrary floats; base rates closer than ulps_eq! resolves (a small entry, 2^-8..2^-20 in f32 / ..2^-45 in f64, differing by "
@@ -132,6 +132,28 @@ def cases(rng, tier):
         # per cents of the entry, or an ordinary entry differing by 1..4 ulps (the per-entry shortcut of compute_base_rate before
         # repairs c0b2ed5 / c8a7116 fired on these); ECm mostly on operands where that state decides the maximal uncertainty
         out += close_pair_lines(rng, fmt, N // 6)
+        for _ in range(N // 8):
+            # EQUAL base-rate values held in two separate vectors (flag same = 0), non-dyadic entries, dyadic and arbitrary uncertainties:
+            # every entry must be taken over exactly (clause equal_entries_unchanged; seeded variant C02_r5B)
+            n = rng.choice([2, 3, 4])
+            den = rng.choice([4, 8, 16])
+            if rng.random() < 0.5:
+                b1, u1 = G.float_simplex(rng, fmt, n)
+                b2, u2 = G.float_simplex(rng, fmt, n)
+                b1, b2 = list(b1), list(b2)
+            else:
+                bb1, u1 = G.rand_simplex(rng, n, den, rng.choice(["int", "int", "any", "dog"]))
+                bb2, u2 = G.rand_simplex(rng, n, den, rng.choice(["int", "int", "any", "dog"]))
+                b1, b2 = list(bb1), list(bb2)
+            a = G.float_dist(rng, fmt, n)
+            if rng.random() < 0.3:           # only some entries equal
+                a2 = G.float_dist(rng, fmt, n)
+                j = rng.randrange(n)
+                a2 = list(a2); a2[j] = a[j]
+            else:
+                a2 = list(a)
+            out.append(G.line("fuse", fmt, rng.choice(G.FAMS_1D) + rng.choice([".o", ".r", ".o.asg"]), [n, rng.choice([0, 1, 2, 3, 3]), 0],
+                              b1 + [u1] + list(a) + b2 + [u2] + list(a2)))
         for _ in range(N // 10):
             n = rng.choice([1, 2, 3])
             b1, u1, _ = G.guard_operand(rng, fmt, n)
